@@ -136,55 +136,60 @@ def s2(rep, w):
     r = rep.rule('S2', 'scope exit emits CloseUpvalue for captured locals and Pop for the others; capture marks the declaring local', floor=4)
     f = w.require_fn(P + 'emit_scope_end', 'C06')
     org = origins(f)
-    ok = False
-    for bi in f.normal_blocks():
-        t = f.blocks[bi]['t']
-        if t['t'] != 'switch':
-            continue
-        if 'is_captured' not in operand_fields(f, org, t['d']):
-            continue
-        false_t = [cb for v, cb in t['cases'] if v == 0]
-        true_t = t['else']
+    # the two classes of instruction a local can leave the stack by, taken from the VM's own handlers: those that close the
+    # upvalues pointing at the slot, and those that only drop slots (Pop, or a counted variant of it)
+    import c07
+    arms = c07.vm_arm_callees(w)
+    if len(arms) < 40:
+        raise Broken('C06', 'anchor', 'Vm::run: only %d opcode arms recognised' % len(arms))
 
-        def first_opcode(b):
-            for _ in range(4):
-                for s in f.blocks[b]['s']:
-                    rr = s.get('r', {})
-                    if rr.get('rv') == 'agg' and rr.get('adt') == 'yarel::chunk::OpCode':
-                        return rr['v']
-                tt = f.blocks[b]['t']
-                if tt['t'] == 'goto':
-                    b = tt['to']
-                else:
-                    break
-            return None
-        if false_t and first_opcode(true_t) == 'CloseUpvalue' and first_opcode(false_t[0]) == 'Pop':
-            ok = True
-    r.check(ok, 'emit_scope_end: is_captured ? CloseUpvalue : Pop', 'the opcode chosen for a local leaving scope no longer follows its '
-            'is_captured flag (captured -> CloseUpvalue, otherwise Pop)', f.loc())
-    # ... and on *every* path that drops locals (scope end, break, continue): each place that produces a Pop for a local is on the
-    # not-captured edge of such a test, each CloseUpvalue on the captured edge
+    def reaches(names, targets, depth=2):
+        seen = set()
+        todo = [(n, 0) for n in names if n]
+        while todo:
+            n, d = todo.pop()
+            if n is None or n in seen:
+                continue
+            seen.add(n)
+            if any(n.endswith(t_) for t_ in targets):
+                return True
+            g = w.fns.get(n)
+            if g is not None and d < depth and n.startswith('yarel::vm::Vm::'):
+                todo += [(callee_name(t_), d + 1) for _, t_ in g.calls()]
+        return False
+    closing = {op for op, cs in arms.items() if reaches(cs, ('ObjFiber::close_upvalues', 'ObjFiber::close_upvalues_for_frame'), 1) and not reaches(cs, ('Vm::push_call_frame', 'ObjFiber::push_call_frame', 'Vec::pop'), 1)}
+    dropping = {op for op, cs in arms.items() if op not in closing and cs and all(n and (n.endswith(('Vm::pop', 'Vm::discard', 'Vm::read_byte', 'Stack::pop')) or
+                (n.startswith('yarel::vm::Vm::') and n.endswith('_impl') and w.fns.get(n) is not None and
+                 all((callee_name(t_) or '').endswith(('Vm::pop', 'Vm::discard', 'Vm::read_byte')) for _, t_ in w.fns[n].calls()))) for n in cs)}
+    if not closing or not dropping:
+        raise Broken('C06', 'anchor', 'instruction classes not recognised (closing %s, dropping %s)' % (sorted(closing), sorted(dropping)))
     dom = f.dominators()
-    edges = {'Pop': set(), 'CloseUpvalue': set()}
+    edges = {'drop': set(), 'close': set()}
     for bi in f.normal_blocks():
         t = f.blocks[bi]['t']
         if t['t'] == 'switch' and 'is_captured' in operand_fields(f, org, t['d']):
             for v, cb in t['cases']:
                 if v == 0:
-                    edges['Pop'].add(cb)
-            edges['CloseUpvalue'].add(t['else'])
+                    edges['drop'].add(cb)
+            edges['close'].add(t['else'])
     producers = []
     for bi in f.normal_blocks():
         for s_ in f.blocks[bi]['s']:
             rr = s_.get('r', {})
-            if rr.get('rv') == 'agg' and rr.get('adt') == 'yarel::chunk::OpCode' and rr.get('v') in edges:
+            if rr.get('rv') == 'agg' and rr.get('adt') == 'yarel::chunk::OpCode':
                 producers.append((bi, rr['v']))
         t = f.blocks[bi]['t']
         if t['t'] == 'call' and callee_name(t) == P + 'emit_byte' and len(t['args']) > 1:
             opn, _ = emit.operand_opcode(w, f, bi, t['args'][1])
-            if opn in edges and not any(b2 == bi for b2, _ in producers):
+            if opn is not None and not any(b2 == bi for b2, _ in producers):
                 producers.append((bi, opn))
-    bad = [(bi, opn) for (bi, opn) in producers if not any(e in dom.get(bi, ()) for e in edges[opn])]
+    other = sorted({o for _, o in producers if o not in closing and o not in dropping})
+    r.check(bool(producers) and not other and any(o in closing for _, o in producers) and any(o in dropping for _, o in producers),
+            'emit_scope_end: is_captured ? CloseUpvalue : Pop',
+            'the opcode chosen for a local leaving scope no longer follows its is_captured flag (captured -> %s, otherwise %s): emit_scope_end produces %s' %
+            (sorted(closing), sorted(dropping), sorted({o for _, o in producers})), f.loc())
+    bad = [(bi, opn) for (bi, opn) in producers if (opn in closing and not any(e in dom.get(bi, ()) for e in edges['close'])) or
+           (opn in dropping and not any(e in dom.get(bi, ()) for e in edges['drop']))]
     r.check(bool(producers) and not bad, 'emit_scope_end: every Pop / CloseUpvalue is chosen under the local\'s is_captured test',
             'emit_scope_end produces %s without consulting is_captured on that path (e.g. the break / continue path): a captured loop-body variable is popped while its '
             'upvalue stays open, and closures read whatever reuses the slot' % sorted({o for _, o in bad}), f.loc())
